@@ -128,6 +128,19 @@ CHECKS = {
   design_ref="DESIGN.md 3.10, 6 (C15)",
   note="Trusted: TLC, helper vmk; non-zero status is 3; $@ may arrive joined or split.",
   technique="TLA+ reference of script statuses vs implementation-shaped variant checked by TLC; every bounded program replayed on the binary"),
+ "C12": dict(
+  category="model_checking",
+  text="spec/WordExpand.tla is the reference on character sequences: BraceExpand (leftmost group with a top-level comma, "
+       "alternative-major product, empty alternatives, literal braces otherwise), NumRange (inclusive, toward n, step max(|s|,1)), "
+       "Matches / GlobNames (`*` only, not across `/`, hidden names only for dot patterns). TLC enumerates every string over "
+       "{a, b, {, }, ,} up to length 5 (thorough 7) with its reference expansion, ranges over negative / descending / stepped / "
+       "degenerate bounds with surrounding text, and 9 patterns against every population of up to 3 (thorough 5) names incl. hidden "
+       "files, names with blanks and subdirectories, checking theorems of the reference; each case is placed at varying argument "
+       "positions next to quoted arguments and run by the real binary in a prepared directory; oracle: argv. Unbalanced brace "
+       "strings are negatives (crash / hang freedom). A fixed tilde table is compared against $HOME.",
+  design_ref="DESIGN.md 3.2, 6 (C12)",
+  note="Trusted: TLC, helper vpa; glob results compared in byte order; ~user outside the statement.",
+  technique="TLA+ reference of brace / range / glob expansion enumerated by TLC; every case replayed on the binary"),
  "C06": dict(
   category="model_checking",
   text="TLC explores every interleaving of child status changes (with Linux's report coalescing), foreground-wait iterations, "
